@@ -80,8 +80,8 @@ var evalTime = time.Date(2024, 6, 1, 12, 0, 0, 0, time.UTC)
 const factLimit = 400
 
 // runStages executes one input of one kind and reports the last stage and how it ended.
-// allowGrowth: run the evaluation stage also for programs of the known class N23
-// (set only by the probe of that finding).
+// allowGrowth: run the evaluation stage also for programs of the known classes N23
+// and N111 (set only by the probes of those findings).
 var allowGrowth = false
 
 // countVars counts variable occurrences in a term.
@@ -155,6 +155,49 @@ func growsTerms(unit parse.SourceUnit) bool {
 				if st.Var != nil && countVars(st.Fn) >= 2 {
 					return true
 				}
+			}
+		}
+	}
+	return false
+}
+
+// deferredRecursion reports the trigger of known finding N111: a predicate declared
+// deferred() is evaluated top-down (engine/topdown.go, SLD resolution without
+// tabling); when it depends on itself through positive body atoms of deferred
+// predicates the resolution does not terminate and no fact limit applies.
+func deferredRecursion(unit parse.SourceUnit) bool {
+	def := map[ast.PredicateSym]bool{}
+	for _, d := range unit.Decls {
+		if d.DeferredPredicate() {
+			def[d.DeclaredAtom.Predicate] = true
+		}
+	}
+	if len(def) == 0 {
+		return false
+	}
+	edges := map[ast.PredicateSym][]ast.PredicateSym{}
+	for _, c := range unit.Clauses {
+		if !def[c.Head.Predicate] {
+			continue
+		}
+		for _, p := range c.Premises {
+			if a, ok := p.(ast.Atom); ok && def[a.Predicate] {
+				edges[c.Head.Predicate] = append(edges[c.Head.Predicate], a.Predicate)
+			}
+		}
+	}
+	for start := range def {
+		seen := map[ast.PredicateSym]bool{}
+		work := append([]ast.PredicateSym{}, edges[start]...)
+		for len(work) > 0 {
+			x := work[len(work)-1]
+			work = work[:len(work)-1]
+			if x == start {
+				return true
+			}
+			if !seen[x] {
+				seen[x] = true
+				work = append(work, edges[x]...)
 			}
 		}
 	}
@@ -256,6 +299,9 @@ func runStages(kind string, data []byte) stageResult {
 	}
 	if !allowGrowth && growsTerms(unit) {
 		return stageResult{"engine.EvalProgram", "skipped-N23", "", ""}
+	}
+	if !allowGrowth && deferredRecursion(unit) {
+		return stageResult{"engine.EvalProgram", "skipped-N111", "", ""}
 	}
 	return one("engine.EvalProgram", func() error {
 		st := factstore.NewSimpleInMemoryStore()
@@ -426,7 +472,11 @@ func genCase(seed, idx int64) (kind, shape string, data []byte) {
 	var base string
 	switch kind {
 	case "unit":
-		base = g.program()
+		if r.Intn(100) < 24 {
+			base = g.zooProgram()
+		} else {
+			base = g.program()
+		}
 	case "clause":
 		if r.Intn(2) == 0 {
 			base = g.rule()
@@ -852,10 +902,16 @@ func (g *gen) decl() string {
 	if p.temporal || g.p(3) {
 		s += " temporal"
 	}
-	if g.p(30) {
+	if g.p(35) {
 		s += " descr [" + g.list(1, func() string {
+			if g.p(50) {
+				return g.zooDescr(vs, g.p(50))
+			}
 			return g.r0([]string{"doc(\"x\")", "arg(X, \"first\")", "mode(\"+\")", "mode(\"-\", \"+\")", "extensional()", "external()", "private()", "fundep([X], [Y])", "merge([X], \"m\")", "deferred()", "temporal()", "desugared()", "foo", "reflects(/x)", "synthetic()", "name(\"x\")"})
 		}) + "]"
+	}
+	if g.p(20) {
+		return s + g.zooRows(p, g.p(60)) + "."
 	}
 	nb := g.r.Intn(3)
 	for b := 0; b < nb; b++ {
@@ -967,7 +1023,14 @@ func (g *gen) mutateLines(s string, k int) string {
 var dict = []string{"Decl", "Package", "Use", "bound", "descr", "inclusion", "temporal", "let", "do", "opt", "now", ":-", "⟸", "|>", "!", "!=", "=", "<", "<=", ">", ">=",
 	"(", ")", "[", "]", "{", "}", ",", ".", ":", "@", "@[", "<-", "<+", "[-", "[+", "_", "X", "/a", "/", "fn:plus", "fn:", ":lt", "foo", ".List<", ".Struct<", ".T", ">", "\"", "'", "`", "b\"",
 	"\\", "\\u{", "\\x", "#", "\n", " ", "0", "-", "-1", "1.", ".5", "1e", "7d", "2024-01-01", "2024-01-01T00:00:00", "99999999999999999999", "é", "\x00", "\xff", "fn:group_by()", "fn:count()",
-	"p0", "p1", "p0()", "p1(X)", "[-1]", "[+1]", "<-[", "@[_]", "@[now]", "@[_, _]"}
+	"p0", "p1", "p0()", "p1(X)", "[-1]", "[+1]", "<-[", "@[_]", "@[now]", "@[_, _]",
+	// descriptor atoms analysis and the engine treat specially (ast/decl.go), bound rows and type expressions
+	"synthetic()", "synthetic(), ", ", synthetic()", "desugared()", ", desugared()", "extensional()", ", extensional()", "external()", ", external()",
+	"private()", "deferred()", ", deferred()", "temporal()", "internal:maybe_temporal()", "mode(\"+\")", ", mode(\"+\", \"-\")", "mode(\"?\", ", "mode(",
+	"reflects(/a)", ", reflects(/a)", "reflects(", "doc(\"d\")", "doc(", "doc(), ", "arg(X, \"x\")", ", arg(Y, \"y\")", "arg(", "fundep([X], [Y])", ", fundep([X], [Y])",
+	"merge([Y], \"m\")", ", merge([Y], \"p0\")", "name(\"x\")", "name()", " descr [", " descr []", " bound [", " bound []", " bound [/number, /string]", " bound [/any]",
+	", /any", "/any, ", ", /number", "/string, ", "\"p0\"", ", \"p1\"", " inclusion [", " inclusion [p0(X)]", ".Map<", ".Pair<", ".Union<", ".Singleton<", ".Option<", ".Struct<>",
+	".Union<>", ".List</any>", ", .List</number>", "fn:List(", "fn:Fun(", "opt ", " temporal"}
 
 func tokenize(s string) []string {
 	var toks []string
@@ -1128,6 +1191,11 @@ func (g *gen) cleanDecl(p predInfo) string {
 	}
 	if g.p(25) {
 		s += " descr [doc(\"d\")" + g.r0([]string{"", ", extensional()", ", arg(X, \"x\")", ", private()"}) + "]"
+	} else if g.p(12) {
+		s += " descr [" + g.zooDescr(vs, false) + "]"
+	}
+	if g.p(8) {
+		return s + g.zooRows(p, false) + "."
 	}
 	nb := g.r.Intn(3)
 	if p.arity == 0 {
@@ -1325,6 +1393,236 @@ func (g *gen) cleanProgram() string {
 		sb.WriteString(g.cleanFact() + "\n")
 	}
 	nr := g.r.Intn(5)
+	for i := 0; i < nr; i++ {
+		sb.WriteString(g.cleanRule() + "\n")
+	}
+	return sb.String()
+}
+
+// ------------------------------------------------ declaration zoo
+//
+// Declarations whose descriptor block carries the atoms that analysis and the
+// engine treat specially (ast/decl.go: doc arg mode extensional external private
+// synthetic desugared deferred temporal reflects fundep merge name), in their
+// accepted shapes and in odd ones, combined with bound rows of every length
+// relative to the arity, several rows, nested type expressions, references to
+// unary predicates (declared, undeclared, the predicate itself) and inclusion
+// constraints. The rest of the program is well formed so that the declaration
+// is what decides how far the pipeline gets.
+
+func (g *gen) modeAtom(n int) string {
+	var ms []string
+	for i := 0; i < n; i++ {
+		ms = append(ms, "\""+g.r0([]string{"+", "-", "?", "+", "-"})+"\"")
+	}
+	return "mode(" + strings.Join(ms, ", ") + ")"
+}
+
+// zooDescr returns one or more comma separated descriptor atoms for a declaration over the variables vs.
+func (g *gen) zooDescr(vs []string, odd bool) string {
+	v := func(i int) string {
+		if len(vs) == 0 {
+			return "X"
+		}
+		return vs[i%len(vs)]
+	}
+	n := len(vs)
+	if !odd {
+		switch g.r.Intn(20) {
+		case 0:
+			return "doc(\"d\", \"more\")"
+		case 1:
+			var as []string
+			for i := range vs {
+				as = append(as, "arg("+vs[i]+", \"a\", \"b\")")
+			}
+			if len(as) == 0 {
+				return "doc(\"d\")"
+			}
+			return strings.Join(as, ", ")
+		case 2:
+			return g.modeAtom(n)
+		case 3:
+			return g.modeAtom(n) + ", " + g.modeAtom(n)
+		case 4:
+			return "extensional()"
+		case 5:
+			return "private()"
+		case 6, 7:
+			return "synthetic()"
+		case 8, 9:
+			return "desugared()"
+		case 10:
+			return "deferred(), " + g.modeAtom(n)
+		case 11:
+			return "external(), " + g.modeAtom(n)
+		case 12:
+			return "temporal()"
+		case 13:
+			return "reflects(" + g.r0([]string{"/x", "/a", "/foo/bar"}) + ")"
+		case 14:
+			return "fundep([" + v(0) + "], [" + v(1) + "])"
+		case 15:
+			return "fundep([" + v(0) + "], [" + v(n-1+n) + "]), merge([" + v(n-1+n) + "], \"" + g.pickPred().name + "\")"
+		case 16:
+			return "name(\"x\")"
+		case 17:
+			return g.r0([]string{"foo(1)", "bar()", "x(/a, \"s\")"})
+		case 18:
+			return "doc(\"d\"), synthetic(), " + g.modeAtom(n)
+		default:
+			return "doc(\"d\"), private(), extensional()"
+		}
+	}
+	return g.r0([]string{
+		"doc()", "doc(X)", "doc(1)", "doc(\"a\"), doc(\"b\")", "doc(/a)", "doc(\"a\", X)",
+		"arg(" + v(0) + ")", "arg(\"x\", \"y\")", "arg(Q, \"x\")", "arg(" + v(0) + ", \"x\")", "arg(" + v(0) + ", 1)", "arg()", "arg(" + v(0) + ", \"x\"), arg(" + v(0) + ", \"y\")",
+		g.modeAtom(n + 1), g.modeAtom(n + 2), "mode()", "mode(X)", "mode(\"x\")", "mode(1)", "mode(\"+\", X)", g.modeAtom(0) + ", " + g.modeAtom(n), "mode(\"\")", "mode(/a)",
+		"external()", "external(), " + g.modeAtom(n) + ", " + g.modeAtom(n), "external(), mode()", "external(), mode(X)", "external(1)",
+		"deferred()", "deferred(), mode()", "deferred(), mode(\"x\")", "deferred(), external()", "deferred(X)",
+		"reflects()", "reflects(X)", "reflects(/x, /y)", "reflects(\"s\")", "reflects(1)", "reflects([/x])", "reflects(/x), reflects(/y)",
+		"fundep([" + v(0) + "])", "fundep(" + v(0) + ", " + v(1) + ")", "fundep([Q], [" + v(0) + "])", "fundep([], [])", "fundep()", "fundep([" + v(0) + "], [" + v(1) + "]), fundep([" + v(1) + "], [" + v(0) + "])",
+		"fundep([1], [\"s\"])", "fundep([" + v(0) + "], [" + v(0) + "], [" + v(0) + "])",
+		"merge(\"m\")", "merge([" + v(0) + "])", "merge([" + v(0) + "], /m)", "merge([" + v(0) + "], X)", "merge()", "merge([" + v(0) + "], 1)", "merge(" + v(0) + ", \"m\")",
+		"fundep([" + v(0) + "], [" + v(1) + "]), merge([" + v(1) + "], \"nosuch\")", "fundep([" + v(0) + "], [" + v(1) + "]), merge([Q], \"" + g.pickPred().name + "\")",
+		"fundep([" + v(0) + "], [" + v(1) + "]), merge(\"m\")", "fundep([" + v(0) + "], [" + v(1) + "]), merge([" + v(1) + "], b\"m\")",
+		"synthetic(1)", "synthetic(X)", "synthetic(), synthetic()", "desugared(X)", "desugared(), synthetic()", "temporal(1)", "temporal(), temporal()",
+		"name()", "name(X)", "name(1)", "name(/a)", "internal:maybe_temporal()", "extensional(X)", "private(1)",
+	})
+}
+
+// zooCell: one entry of a bound row.
+func (g *gen) zooCell(p predInfo, odd bool) string {
+	k := g.r.Intn(20)
+	switch {
+	case k < 6:
+		return g.cleanType(2)
+	case k < 9:
+		return g.typeExpr(2)
+	case k < 12:
+		return g.r0([]string{"/any", "/number", "/string", "/name"})
+	case k < 15:
+		// reference to a unary predicate: declared, not declared, the predicate itself
+		return "\"" + g.r0([]string{g.pickPred().name, g.pickPred().name, p.name, "nosuch", "u"}) + "\""
+	case k < 17 || !odd:
+		return ".List<" + g.cleanType(1) + ">"
+	default:
+		return g.r0([]string{"1", "X", "fn:plus(1, 2)", "\"a b\"", "[/number]", "\"\"", "/", "_", "fn:List()", "fn:Pair(/any)", "fn:Map(/any, /any, /any)", ".Struct</a>", ".Union<>", "fn:Fun()", "1.5", "b\"x\"", "{/a: /number}", ".Option<>", "fn:Option(/any, /any)", ".Singleton<X>"})
+	}
+}
+
+// zooRows: the bound blocks (and sometimes an inclusion block) of a declaration of p.
+func (g *gen) zooRows(p predInfo, odd bool) string {
+	nb := g.r0i([]int{0, 1, 1, 2, 2, 3, 4})
+	if odd && nb == 0 {
+		nb = 1
+	}
+	s := ""
+	for b := 0; b < nb; b++ {
+		ar := p.arity
+		if odd && (g.p(55) || b == nb-1 && !strings.Contains(s, "bound") && g.p(40)) {
+			ar = g.r0i([]int{0, p.arity - 1, p.arity + 1, p.arity + 1, p.arity + 2, 2*p.arity + 1, p.arity + 5})
+			if ar < 0 {
+				ar = 0
+			}
+		}
+		var ts []string
+		for i := 0; i < ar; i++ {
+			ts = append(ts, g.zooCell(p, odd && g.p(30)))
+		}
+		s += " bound [" + strings.Join(ts, ", ")
+		if ar > 0 && g.p(6) {
+			s += ","
+		}
+		s += "]"
+	}
+	if g.p(15) {
+		q := g.pickPred()
+		var xs []string
+		for i := 0; i < q.arity; i++ {
+			if p.arity > 0 {
+				xs = append(xs, varNames[g.r.Intn(p.arity)%len(varNames)])
+			} else {
+				xs = append(xs, "X")
+			}
+		}
+		s += " inclusion [" + q.name + "(" + strings.Join(xs, ", ") + ")]"
+	}
+	return s
+}
+
+func (g *gen) r0i(xs []int) int { return xs[g.r.Intn(len(xs))] }
+
+func (g *gen) zooDecl(p predInfo, oddDescr, oddRows bool) string {
+	var vs []string
+	for i := 0; i < p.arity; i++ {
+		vs = append(vs, varNames[i%len(varNames)])
+	}
+	s := "Decl " + p.name + "(" + strings.Join(vs, ", ") + ")"
+	if p.temporal {
+		s += " temporal"
+	}
+	switch {
+	case oddDescr:
+		d := g.zooDescr(vs, true)
+		if g.p(30) {
+			d = g.zooDescr(vs, false) + ", " + d
+		}
+		s += " descr [" + d + "]"
+	case g.p(75):
+		d := g.zooDescr(vs, false)
+		if g.p(25) {
+			d += ", " + g.zooDescr(vs, false)
+		}
+		s += " descr [" + d + "]"
+	}
+	return s + g.zooRows(p, oddRows) + "."
+}
+
+// zooProgram: every predicate is declared; one declaration (two in wild mode) is the odd one.
+func (g *gen) zooProgram() string {
+	g.initPreds()
+	wild := !g.clean
+	g.clean = true // facts and rules below are meant to be accepted
+	defer func() { g.clean = !wild }()
+	if g.p(50) {
+		// a unary predicate other declarations may refer to
+		g.preds = append(g.preds, predInfo{name: "u", arity: 1, cols: []int{g.r.Intn(4)}})
+	}
+	oddAt := map[int]bool{g.r.Intn(len(g.preds)): true}
+	if wild {
+		oddAt[g.r.Intn(len(g.preds))] = true
+	}
+	var sb strings.Builder
+	for i, p := range g.preds {
+		switch {
+		case oddAt[i]:
+			// at least one of the two sides is odd in 85 % of the cases
+			od, or := g.p(45), g.p(60)
+			if !od && !or && g.p(85) {
+				or = true
+			}
+			sb.WriteString(g.zooDecl(p, od, or) + "\n")
+		case g.p(70):
+			sb.WriteString(g.zooDecl(p, false, false) + "\n")
+		case g.p(50):
+			sb.WriteString(g.cleanDecl(p) + "\n")
+		}
+		if wild && g.p(6) {
+			sb.WriteString(g.zooDecl(p, g.p(50), g.p(50)) + "\n") // declared twice
+		}
+	}
+	all := g.preds
+	for i := range all {
+		g.preds = all[i : i+1]
+		sb.WriteString(g.cleanFact() + "\n")
+	}
+	g.preds = all
+	nf := g.r.Intn(4)
+	for i := 0; i < nf; i++ {
+		sb.WriteString(g.cleanFact() + "\n")
+	}
+	nr := g.r.Intn(4)
 	for i := 0; i < nr; i++ {
 		sb.WriteString(g.cleanRule() + "\n")
 	}
